@@ -11,18 +11,19 @@ from .engine import REPO
 
 
 def inputs(rng, n_samples):
-    out = []
+    pool = []
     from . import witness_types, witness_mut, witness_literals
     for src, exp, what in witness_types.cases(rng):
         if exp != 'accept':
-            out.append((what, src))
+            pool.append((str(exp), what, src))
     for src, exp, what in witness_mut.cases() + witness_mut.aggregate_cases():
         if exp != 'accept':
-            out.append((what, src))
+            pool.append((str(exp), what, src))
     for src, exp, what in witness_literals.cases(rng)[:60]:
-        out.append((what, src))
-    rng.shuffle(out)
-    out = out[:120]
+        pool.append(('literal:' + str(exp), what, src))
+    rng.shuffle(pool)
+    # rendering is cheap: every by-construction program is rendered, so every kind of diagnostic the families can provoke is covered
+    out = [(what, src) for exp, what, src in pool]
     files = sorted(glob.glob(os.path.join(REPO, 'tests', 'samples', 'invalid', '*.pn')))
     rng.shuffle(files)
     for f in files[:n_samples]:
